@@ -14,6 +14,49 @@ use std::path::{Path, PathBuf};
 
 const DEFAULT_COMPRESSED_SUFFIX: &str = ".gz";
 
+/// The wall clock the roller decides time-based rolls by.
+#[cfg(not(excsn_fibre_verif))]
+fn clock_now() -> DateTime<Utc> {
+  Utc::now()
+}
+
+/// Simulation build: the simulator's virtual clock (nanoseconds since the Unix epoch).
+#[cfg(excsn_fibre_verif)]
+fn clock_now() -> DateTime<Utc> {
+  DateTime::<Utc>::from_timestamp_nanos(fibre_verif_rt::time::now_ns() as i64)
+}
+
+/// Simulation build: access to the (private) roller with an explicit clock.
+#[cfg(excsn_fibre_verif)]
+pub mod verif {
+  use super::*;
+
+  pub struct Roller(CustomRoller);
+
+  impl Roller {
+    pub fn open(policy: RollingPolicyInternal, now: DateTime<Utc>) -> Result<Self> {
+      CustomRoller::new_at_time(policy, now, None).map(Roller)
+    }
+    pub fn write(&mut self, buf: &[u8], now: DateTime<Utc>) -> std::io::Result<usize> {
+      self.0.write_internal(buf, now)
+    }
+    pub fn write_all(&mut self, mut buf: &[u8], now: DateTime<Utc>) -> std::io::Result<()> {
+      while !buf.is_empty() {
+        match self.0.write_internal(buf, now) {
+          Ok(0) => return Err(io::Error::new(io::ErrorKind::WriteZero, "failed to write whole buffer")),
+          Ok(n) => buf = &buf[n..],
+          Err(e) if e.kind() == io::ErrorKind::Interrupted => {}
+          Err(e) => return Err(e),
+        }
+      }
+      Ok(())
+    }
+    pub fn flush(&mut self) -> std::io::Result<()> {
+      self.0.writer.flush()
+    }
+  }
+}
+
 // Regex to parse filenames like: "prefix.YYYY-MM-DD_HH-MM-SS.1.log"
 // Captures: 1=timestamp, 2=sequence
 static ROLLED_FILE_REGEX: Lazy<Regex> = Lazy::new(|| {
@@ -62,7 +105,7 @@ impl CustomRoller {
     policy: RollingPolicyInternal,
     error_tx: Option<BoundedSyncSender<InternalErrorReport>>,
   ) -> Result<Self> {
-    Self::new_at_time(policy, Utc::now(), error_tx)
+    Self::new_at_time(policy, clock_now(), error_tx)
   }
 
   /// Testable constructor that allows injecting the current time.
@@ -367,7 +410,7 @@ fn parse_datetime_from_str(s: &str) -> Option<NaiveDateTime> {
 
 impl Write for CustomRoller {
   fn write(&mut self, buf: &[u8]) -> std::io::Result<usize> {
-    self.write_internal(buf, Utc::now())
+    self.write_internal(buf, clock_now())
   }
   fn flush(&mut self) -> std::io::Result<()> {
     self.writer.flush()
